@@ -13,7 +13,8 @@ ASSUMPTIONS = [
     "tolerance 1e-6 GB on pool totals (incrementally tracked float sums), 1e-9 relative per container",
     "pool demand within 1e-6 GB of capacity: kill or no kill both accepted",
 ]
-FLOORS = {"had_failure": 0.1, "usage_read_after_suspension": 0.03, "tick_with_success_and_failure": 0.01}
+FLOORS = {"had_failure": (0.1, "pm"), "usage_read_after_suspension": (0.03, "pm"), "tick_with_success_and_failure": (0.01, "pm"),
+          "full_simulation": 100}
 
 
 def plan(tier):
